@@ -6,6 +6,7 @@ import (
 	"crypto/sha512"
 	"encoding/hex"
 	"math/big"
+	"strings"
 	"sync"
 
 	"github.com/cloudflare/pat-go/tokens/type3"
@@ -71,12 +72,30 @@ type vrCase struct {
 	staleFrom *vrCase
 }
 
+// c06Log records every case run on a fresh attester, for the shared-attester history leg
+var c06Log []struct {
+	cat string
+	v   vrCase
+}
+
 func doVerifyRequest(c *h.Ctx, cat_ string, v vrCase) {
+	c06Log = append(c06Log, struct {
+		cat string
+		v   vrCase
+	}{cat_, v})
 	cache := newRecCache()
 	att := type3.NewRateLimitedAttester(cache)
 	if v.preRegistered {
 		cache.m[hex.EncodeToString(v.clientKey)] = &type3.ClientState{}
 	}
+	doVerifyRequestOn(c, cat_, v, att, cache)
+}
+
+// doVerifyRequestOn runs one request on the given (possibly long-lived) attester: the verdict on a request must not
+// depend on what the attester was asked before, so the same oracles and the same model case apply
+func doVerifyRequestOn(c *h.Ctx, cat_ string, v vrCase, att *type3.RateLimitedAttester, cache *recCache) {
+	_, v.preRegistered = cache.m[hex.EncodeToString(v.clientKey)]
+	cache.puts = 0
 	req := type3.RateLimitedTokenRequest{RequestKey: v.key, NameKeyID: v.nkid, EncryptedTokenRequest: v.enc, Signature: v.sig}
 	if v.staleFrom != nil {
 		o := v.staleFrom
@@ -284,6 +303,31 @@ func runC06(c *h.Ctx) {
 			v.blind = b
 			doVerifyRequest(c, "blind-shapes", v)
 		}
+		// history leg: the same requests put to ONE long-lived attester, each refused or malformed request followed
+		// by an honest one — a verdict must depend on the request alone, never on what was asked before
+		log := c06Log
+		c06Log = nil
+		cache := newRecCache()
+		att := type3.NewRateLimitedAttester(cache)
+		nb := 0
+		for _, e := range log {
+			if e.v.staleFrom != nil {
+				continue
+			}
+			follow := true
+			if strings.HasPrefix(e.cat, "bitflip:") {
+				nb++
+				if nb%4 != 0 {
+					continue
+				}
+				follow = nb%16 == 0
+			}
+			doVerifyRequestOn(c, "history:"+e.cat, e.v, att, cache)
+			if follow {
+				doVerifyRequestOn(c, "history:honest-after:"+e.cat, base, att, cache)
+			}
+		}
+		c06Log = nil
 	}
 }
 
